@@ -571,7 +571,7 @@ func oracleC16(v *View, vd *Verdict) {
 	step := map[string]string{"REGISTER": "reg", "REGACK": "reg", "PUBLISH": "pub", "PUBACK": "pub", "PUBREC": "pub", "PUBREL": "rel", "PUBCOMP": "rel"}
 	lost := map[string]int{}
 	for _, r := range plan.Cfg.SN.Rules {
-		if r.Act == "drop" {
+		if r.Act == "drop" || r.Act == "werr" { // (a datagram whose write failed is a lost datagram)
 			lost[step[r.Class]] += r.Count
 		}
 	}
@@ -687,6 +687,7 @@ func genC16(g *Gen, idx int) *Plan {
 	classesG2C := []string{"REGISTER", "PUBLISH", "PUBREL"}
 	classesC2G := []string{"REGACK", "PUBACK", "PUBREC", "PUBCOMP"}
 	nrules := int(g.Range(1, 3))
+	hasWerr := false
 	for r := 0; r < nrules; r++ {
 		j := int(g.Range(1, int64(rc)))
 		if beyond && r == 0 {
@@ -697,7 +698,13 @@ func genC16(g *Gen, idx int) *Plan {
 		if g.Bool(0.25) {
 			act, j = "dup", int(g.Range(1, 2))
 		}
-		if g.Bool(0.5) {
+		if act == "drop" && !beyond && !hasWerr && g.Bool(0.15) {
+			hasWerr = true
+			// the datagram is lost before it leaves: the client's write of its PUBCOMP fails (the one
+			// acknowledgement whose failed write the client survives)
+			// (once: a second failure, on the path that answers a repeated PUBREL, ends the client like every other failed write does)
+			p.Cfg.SN.Rules = append(p.Cfg.SN.Rules, Rule{Dir: "c2g", Class: "PUBCOMP", Count: 1, Act: "werr"})
+		} else if g.Bool(0.5) {
 			p.Cfg.SN.Rules = append(p.Cfg.SN.Rules, Rule{Dir: "g2c", Class: classesG2C[g.Intn(3)], Count: j, Act: act})
 		} else {
 			p.Cfg.SN.Rules = append(p.Cfg.SN.Rules, Rule{Dir: "c2g", Class: classesC2G[g.Intn(4)], Count: j, Act: act})
